@@ -144,3 +144,32 @@ if [ ! -f lookCA.cert.pem ]; then
   lkca lookInt caAint "/C=CN/O=verifsim/CN=verifsim SM2 intermediate"
   for c in lookCA lookInt; do openssl x509 -in $c.cert.pem -noout -subject -ext subjectKeyIdentifier,basicConstraints | tr '\n' ' '; echo; done
 fi
+# wave 9: name-constrained intermediates under caA (permitted DNS subtree), each issuing a pair for server.sim
+if [ ! -f ncok.cert.pem ]; then
+  ncca() { # name permitted-dns serial
+    openssl genpkey -algorithm SM2 -out "$1.key.pem" 2>/dev/null
+    { echo "basicConstraints=critical,CA:TRUE"; echo "keyUsage=critical,keyCertSign,cRLSign"; echo "subjectKeyIdentifier=hash"; echo "authorityKeyIdentifier=keyid"; echo "nameConstraints=critical,permitted;DNS:$2"; } > t.ext
+    openssl req -new -key "$1.key.pem" -subj "/C=CN/O=verifsim/CN=verifsim constrained CA $1" -out t.csr -sm3 $D
+    openssl x509 -req $V -in t.csr -CA caA.cert.pem -CAkey caA.key.pem -out "$1.cert.pem" -extfile t.ext -not_before $VB -not_after $VA -sm3 $D -set_serial $3 2>/dev/null
+    rm -f t.csr t.ext
+  }
+  ncleaf() { # name CN ku ca serial
+    openssl genpkey -algorithm SM2 -out "$1.key.pem" 2>/dev/null
+    { echo "basicConstraints=critical,CA:FALSE"; echo "keyUsage=critical,$3"; echo "extendedKeyUsage=serverAuth,clientAuth"; echo "subjectKeyIdentifier=hash"; echo "authorityKeyIdentifier=keyid"; echo "subjectAltName=DNS:server.sim"; } > t.ext
+    openssl req -new -key "$1.key.pem" -subj "/C=CN/O=verifsim/CN=$2" -out t.csr -sm3 $D
+    openssl x509 -req $V -in t.csr -CA "$4.cert.pem" -CAkey "$4.key.pem" -out "$1.cert.pem" -extfile t.ext -not_before $VB -not_after $VA -sm3 $D -set_serial $5 2>/dev/null
+    rm -f t.csr t.ext
+  }
+  ncca ncok server.sim 9701
+  ncca ncdot .sim 9702
+  ncca ncsfx rver.sim 9703
+  ncca ncother other.sim 9704
+  ncca ncsub www.server.sim 9705
+  n=9710
+  for ca in ncok ncdot ncsfx ncother ncsub; do
+    ncleaf srv$ca-sign "server.sim sign" digitalSignature $ca $n; n=$((n+1))
+    ncleaf srv$ca-enc "server.sim enc" keyEncipherment,dataEncipherment,keyAgreement $ca $n; n=$((n+1))
+    openssl verify $V -CAfile caA.cert.pem -untrusted $ca.cert.pem srv$ca-sign.cert.pem 2>&1 | tail -1
+  done
+  openssl x509 -in ncsfx.cert.pem -noout -ext nameConstraints
+fi
